@@ -17,7 +17,8 @@ os.makedirs(os.path.join(VERIF, "replays"), exist_ok=True)
 
 def sh(cmd, timeout=600, cwd=None, env=None, inp=None):
     e = dict(os.environ)
-    e.update({"PYTHONPATH": REPO, "PYTHONHASHSEED": "0", "PIP_NO_INDEX": "1"})
+    e.update({"PYTHONPATH": REPO, "PYTHONHASHSEED": "0", "PIP_NO_INDEX": "1", "OMP_NUM_THREADS": "1",
+              "OPENBLAS_NUM_THREADS": "1", "MKL_NUM_THREADS": "1", "NUMEXPR_NUM_THREADS": "1"})
     if env:
         e.update(env)
     try:
@@ -333,7 +334,8 @@ def e2e_runs(cfgs, with_series=False, timeout=1800, parallel=8):
     """run real designs (tools/impl/e2e.py) with a cache keyed by the hash of /repo's sources + the config.
     returns a list of result dicts (each with 'outdir' holding the written output files)."""
     from concurrent.futures import ThreadPoolExecutor
-    rh = repo_hash()
+    with open(os.path.join(VERIF, "tools", "impl", "e2e.py"), "rb") as fh:
+        rh = repo_hash() + "_" + hashlib.sha256(fh.read()).hexdigest()[:8]
     base = os.path.join(BUILD, "cache", rh)
     os.makedirs(base, exist_ok=True)
     # drop caches of other source states
